@@ -78,7 +78,7 @@ func concurrentChild(args []string) int {
 					rep = 3000 / len(unit)
 				}
 				if cl == 0 {
-					rep = (8 << 20) / len(unit) // larger than the socket buffers: the server blocks mid-response
+					rep = (2 << 20) / len(unit) // larger than what the socket buffers absorb while the client does not read
 				}
 				sp := probe.Spec{Code: 200, Text: unit, Rep: rep, Hdr: [][2]string{{"Content-Type", "text/html; charset=utf-8"}}}
 				want := sp.Body()
@@ -102,9 +102,12 @@ func concurrentChild(args []string) int {
 				var resp *lib.Resp
 				if slow {
 					k.Raw().Write(raw)
-					time.Sleep(120 * time.Millisecond) // the server is mid-way through sending this response meanwhile
+					time.Sleep(160 * time.Millisecond) // the server is mid-way through sending this response meanwhile
 					resp = k.Do("GET", nil)
 				} else {
+					// the peers arrive in two waves while the slow reader's response is
+					// stuck in the server's send path
+					time.Sleep(time.Duration(40+40*(cl%2)) * time.Millisecond)
 					resp = k.Do("GET", raw)
 				}
 				mu.Lock()
